@@ -28,7 +28,8 @@ pub trait LatticeGen: Sized {
 
     /// Per-run set-up; draws the type's own knobs (domain size, carriers, common initial value).
     fn new(sim: &mut Sim, n: usize) -> Self;
-    /// Initial value of replica `i` (all replicas start with `==` values).
+    /// Start value of replica `i` (drawn in `new`; may differ between replicas unless the type's
+    /// documented precondition forbids it). It counts as a durable, acknowledged update of `i`.
     fn init(&self, i: usize) -> Self::State;
     /// A generated local update for replica `i` currently holding `st` (legal usage only).
     fn delta(&mut self, sim: &mut Sim, i: usize, st: &Self::State) -> Self::Msg;
@@ -446,15 +447,17 @@ impl<'s, G: LatticeGen> World<'s, G> {
     /// causally seen (its own durable/volatile ones plus what messages carried).
     fn check_fold(&mut self, r: usize, when: &str) {
         self.sim.probe("fold_check");
+        // base: the replica's own start value (update id r); then every other update it has seen
         let mut acc = self.g.init(r);
-        for id in bits(self.reps[r].known) {
+        for id in bits(self.reps[r].known & !(1 << r)) {
             G::merge(&mut acc, self.updates[id].clone());
         }
         if !G::eq(&self.reps[r].st, &acc) {
-            let ups: Vec<String> = bits(self.reps[r].known).map(|id| format!("u{id}={}", G::show_msg(&self.updates[id]))).collect();
+            let ups: Vec<String> = bits(self.reps[r].known & !(1 << r)).map(|id| format!("u{id}={}", G::show_msg(&self.updates[id]))).collect();
             let d = format!(
-                "{when}: R{r} holds {} but the fold in issue order of the updates it has seen [{}] is {}",
+                "{when}: R{r} holds {} but its start value {} merged, in issue order, with the updates it has seen [{}] is {}",
                 G::show(&self.reps[r].st),
+                G::show(&self.g.init(r)),
                 ups.join(", "),
                 G::show(&acc)
             );
@@ -562,16 +565,24 @@ pub fn run<G: LatticeGen>(sim: &mut Sim, mode: Mode) -> Outcome {
         sync_persist_pct, fork_pct, idem_pct, fold_pct, fanout_all, bidir,
     };
     let mut reps = Vec::with_capacity(n);
+    // start values: update ids 0..n, update i is known to (and durable at) replica i from t=0
+    let mut updates = Vec::new();
     for i in 0..n {
         let st = g.init(i);
-        reps.push(Replica::<G> { durable: st.clone(), st, up: true, known: 0, durable_known: 0 });
+        updates.push(g.snapshot(sim, &st));
+        reps.push(Replica::<G> { durable: st.clone(), st, up: true, known: 1 << i, durable_known: 1 << i });
     }
+    let start_ids = (1u64 << n) - 1;
     let mut w = World::<G> {
         sim, mode, g, k, reps,
-        q: BTreeMap::new(), qseq: 0, now: 0, part: None, updates: Vec::new(), issued: 0, acked: 0,
+        q: BTreeMap::new(), qseq: 0, now: 0, part: None, updates, issued: start_ids, acked: start_ids,
         send_no: 0, last_no: vec![0; 64], delivered_nos: BTreeSet::new(), faults_on: true, viol: None, events: 0, delivered: 0,
         sends_after_kickoff: 0, flood: false,
     };
+    for r in 0..n {
+        let fp = G::fp(&w.reps[r].st);
+        w.log(fp ^ 0x50, |w| format!("R{r} starts with {} (durable, acknowledged as update u{r})", G::show(&w.reps[r].st)));
+    }
     // ---------------- the schedule of spontaneous events
     for r in 0..n {
         let ups = w.sim.choose("updates", 0, if heavy { 3 } else { 6 });
@@ -632,7 +643,8 @@ pub fn run<G: LatticeGen>(sim: &mut Sim, mode: Mode) -> Outcome {
     }
 
     // ---------------- fault-free anti-entropy tail
-    let issued_n = w.updates.len() as u64;
+    let issued_n = w.updates.len() as u64; // start values included
+    let local_updates = issued_n - n as u64;
     if w.viol.is_none() {
         match mode {
             Mode::C01 | Mode::C05 => {
@@ -747,6 +759,6 @@ pub fn run<G: LatticeGen>(sim: &mut Sim, mode: Mode) -> Outcome {
         let states: Vec<String> = (0..n).map(|r| format!("R{r}={}", G::show(&w.reps[r].st))).collect();
         format!("---- final: {}", states.join(" "))
     });
-    let nontrivial = w.delivered > 0 && issued_n > 0 && w.sim.nonbenign > 0;
+    let nontrivial = w.delivered > 0 && local_updates > 0 && w.sim.nonbenign > 0;
     Outcome { violation: w.viol, nontrivial, sim_time: w.events, discarded: false }
 }
